@@ -48,7 +48,7 @@ func init() {
 			}
 			return 16
 		},
-		Rule: "each case = one sync of 1-2 trusted roots (world state built by 5-65 random account operations + up to 45 filler accounts sharing storage templates + (1 world in 3) contracts whose code is byte-identical to a storage-trie node, so one hash is needed in MerkleTrie and BytesByHash and both requests merge + optional validator list; plain MPT with 0-150 keys; receipt list with event-log tries) into an empty target through merkle.NewBuilder (layered) or NewBuilderWithRawDatabase, requests served in fifo-window/lifo/random order with the bucket id chosen as sync2 (BucketIDs()[0]), sync v1 (always BytesByHash) or swapped, the second root attached after some deliveries, and hostile deliveries interleaved: duplicates, values of foreign tries, premature true values (not yet requested), bit flips, truncation/extension, random and empty values, true values under buckets without hasher or with another hasher. Non-trivial = distinct sync (hash of its delivery log) that completed with >= 8 accepted values, >= 1 nested value (storage trie node, code, validator list, event log node) and >= 3 different hostile classes delivered.",
+		Rule: "each case = one sync of 1-2 trusted roots (world state built by 5-65 random account operations + up to 45 filler accounts sharing storage templates + (1 world in 3) contracts whose code is byte-identical to a storage-trie node, so one hash is needed in MerkleTrie and BytesByHash and both requests merge + optional validator list; plain MPT with 0-150 keys; receipt list with event-log tries) into an empty target through merkle.NewBuilder (layered) or NewBuilderWithRawDatabase, requests served in fifo-window/lifo/random order with the bucket id chosen as sync2 (BucketIDs()[0]), sync v1 (always BytesByHash) or swapped, the second root attached after some deliveries, and hostile deliveries interleaved: duplicates, values of foreign tries, premature true values (not yet requested), bit flips, truncation/extension, random and empty values, true values under buckets without hasher or with another hasher. In 1 of 3 layered syncs the k-th write of Flush(true) to the backing store fails once (k = 1, last or random) and Flush is retried as a caller would; the store comparison is made once Flush reports success. Non-trivial = distinct sync (hash of its delivery log) that completed with >= 8 accepted values, >= 1 nested value (storage trie node, code, validator list, event log node) and >= 3 different hostile classes delivered.",
 		MinNonTrivial: func(t string) int {
 			if t == ev.Thorough {
 				return 12000
@@ -58,7 +58,8 @@ func init() {
 		Required: []string{"accepted", "rejected_duplicate", "rejected_foreign", "rejected_premature", "rejected_bitflip",
 			"rejected_nohasher-bucket", "rejected_other-hasher-bucket", "accepted_swapped-bucket", "syncs_completed",
 			"target_equals_source", "late_attach", "multi_requester_requests", "raw_builder_syncs", "layered_builder_syncs",
-			"merged_two_bucket_requests", "merged_first_bucket_trie", "merged_first_bucket_bytes"},
+			"merged_two_bucket_requests", "merged_first_bucket_trie", "merged_first_bucket_bytes",
+			"flush_write_faults_injected", "flush_retries_succeeded"},
 		Assumptions: []string{
 			"a structure flushed alone into a fresh database leaves exactly its own data there (flush writes reachable nodes only; checked by C17/C14 paths)",
 			"MapDB behind the recording wrapper is a faithful store",
@@ -595,11 +596,46 @@ func run(c *ev.Ctx) {
 				return
 			}
 		}
-		if err := s.b.Flush(true); err != nil {
-			s.violation("flush.error", map[string]interface{}{"err": err.Error()})
+		// Fault point: a transient write error of the backing store in the
+		// middle of Flush(true); the caller (sync Finalize) retries. Nothing
+		// is claimed while Flush reports an error; once it reports success
+		// the real store must hold the complete state.
+		if !s.raw && len(s.needed) > 0 && r.Intn(3) == 0 {
+			k := 1 + r.Intn(len(s.needed))
+			switch r.Intn(4) {
+			case 0:
+				k = 1
+			case 1:
+				k = len(s.needed)
+			}
+			s.target.FailSetAfter(k)
+			s.logf("arm write fault at Set #%d of %d", k, len(s.needed))
+		}
+		flushed := false
+		for attempt := 1; attempt <= 4; attempt++ {
+			err := s.b.Flush(true)
+			s.logf("Flush(true) attempt %d -> %v (store entries %d)", attempt, err, s.target.Len())
+			if err == nil {
+				flushed = true
+				if attempt > 1 {
+					c.Count("flush_retries_succeeded", 1)
+				}
+				break
+			}
+			if err != sm.ErrInjected && s.target.Faults() == 0 {
+				s.violation("flush.error", map[string]interface{}{"err": err.Error()})
+				return
+			}
+			c.Count("flush_errors_reported", 1)
+		}
+		if s.target.Faults() > 0 {
+			c.Count("flush_write_faults_injected", 1)
+		}
+		s.target.FailSetAfter(0)
+		if !flushed {
+			s.violation("flush.never-succeeds-after-transient-fault", map[string]interface{}{"faults": s.target.Faults()})
 			return
 		}
-		s.logf("Flush(true)")
 		c.Count("syncs_completed", 1)
 		// "stores nothing else": the underlying target equals the source, entry by entry
 		got := s.target.Entries()
